@@ -20,7 +20,7 @@ ASSUMPTIONS = ["box vectors for the oracle are recomputed in float64 from the fl
 @st.composite
 def strategy(draw, tier="quick"):
     nf = draw(st.integers(1, 4))
-    cells = draw(gen.cells(nf))
+    cells = draw(gen.cells(nf, kinds=gen.KINDS_GEOMETRY))
     cp = draw(gen.coord_params(max_atoms=16))
     n = cp["n"]
     npairs = draw(st.integers(0, 24))
